@@ -580,6 +580,11 @@ func c07Hook(r *kit.Run, idx int64, rng *rand.Rand, deque bool) {
 			return
 		}
 		cs, q := kit.Quiesce(c07Watchdog)
+		if b.done.Load() {
+			// released late (slow machine): not a verdict
+			r.Count("hook_scenarios_released", 1)
+			return
+		}
 		if q {
 			hs, _ := helper.Load().(string)
 			r.Violation("C07/"+map[bool]string{false: "Queue", true: "Deque"}[deque]+"."+b.Kind+"/lost-wakeup-in-window", idx, desc,
